@@ -438,6 +438,12 @@ func (g *rowGen) scalar(v reflect.Value, tag, path string, row int) {
 			v.SetFloat(r.F64(!g.o.NoNaN))
 		}
 	case reflect.String:
+		if hasOpt(tag, "uuid") {
+			// the canonical text form, which is what the reader returns
+			b := g.genFixed(16, path, row)
+			v.SetString(fmt.Sprintf("%x-%x-%x-%x-%x", b[0:4], b[4:6], b[6:8], b[8:10], b[10:16]))
+			return
+		}
 		if hasOpt(tag, "enum") {
 			v.SetString(gen.Pick(r, []string{"RED", "GREEN", "BLUE", "A", ""}))
 			return
